@@ -41,6 +41,22 @@ theorem C15_skipped_after_timeout (total : Option Nat) (runner : Runner) (tcs : 
     ∀ j, (j, Verdict.skipped) ∈ runDocument tcs (.timeout g i outs) ↔ (i < j ∧ j < tcs.length) :=
   Scrut.Exec.skipped_after_timeout total runner tcs g i outs h
 
+/-- **C15** (Cram, one script): a test case that ended with the shared skip code skips the
+document even if a later command left the shell (so that fewer results than test cases exist). -/
+theorem C15_script_skip_wins (tcs : List TC) (c : Int) (outs : List Out)
+    (hc : c ≠ scriptSkip tcs) (h : ∃ o ∈ outs, o.status = .code (scriptSkip tcs)) :
+    ∃ i, execScript tcs (.code c) outs = some (.skipped i) ∧
+      ∃ o, outs[i]? = some o ∧ o.status = .code (scriptSkip tcs) :=
+  Scrut.Exec.execScript_skip_wins tcs c outs hc h
+
+/-- **C15** (Cram): nothing else skips — a skipped result means the script itself or the parsed
+output at that index ended with the skip code. -/
+theorem C15_script_skip_cause (tcs : List TC) (script : Status) (outs : List Out) (i : Nat)
+    (h : execScript tcs script outs = some (.skipped i)) :
+    (script = .code (scriptSkip tcs) ∧ i = 0) ∨
+    ∃ o, outs[i]? = some o ∧ o.status = .code (scriptSkip tcs) :=
+  Scrut.Exec.execScript_skipped_cause tcs script outs i h
+
 /-! Non-vacuity: custom skip code 7 on the second of three test cases. -/
 example :
     (execAll none (fun i _ => (⟨.code (if i = 1 then 7 else 0), true, true⟩, 0))
